@@ -157,14 +157,16 @@ class Rows(QueryLeg):
 class Multi(QueryLeg):
     name = "multi"
     rule = ("random mixed multigraphs (1-5 vertices, 0-7 links of the five classes, self-loops, parallel edges, some None ends and "
-            "third members), every vertex asked under random direction x unknown x filter settings (incl. the FORWARD/BACKWARD "
-            "pairs the duality oracle needs), neighbor caching on in half the cases; order and repetition of the answer compared; non-trivial = some vertex has >=2 links")
+            "third members; in a third of the graphs most vertices are of a class whose instances all compare equal), every vertex asked under random direction x unknown x filter settings (incl. the FORWARD/BACKWARD "
+            "pairs the duality oracle needs), neighbor caching on in half the cases (cold memos, or warm memos followed by link edits before the questions); order and repetition of the answer compared; non-trivial = some vertex has >=2 links")
     quick_n = 250
     thorough_n = 6000
 
     def generate(self, rng, n):
         for _ in range(n):
-            ops, vids, lids, uid = Q.gen_graph_ops(rng, universes=False)
+            # a third of the graphs have vertices that all compare EQUAL (class EqV): the far end is named by identity
+            eqv = rng.random() < 0.33
+            ops, vids, lids, uid = Q.gen_graph_ops(rng, universes=False, classes=[6, 6, 6, False, 2] if eqv else None)
             queries = []
             for _ in range(3):
                 u = rng.choice(Q.UNKS)
@@ -173,7 +175,24 @@ class Multi(QueryLeg):
                     for d in Q.DIRS:
                         queries.append(["NB", v, d, u, f])
             # caching on in half the cases (cold memos: the rounds of queries above then meet each other's entries)
-            yield {"ops": ops, "queries": queries, "caching": rng.random() < 0.5, "warm": False}
+            case = {"ops": ops, "queries": queries, "caching": rng.random() < 0.5, "warm": False}
+            if case["caching"] and lids and not eqv and rng.random() < 0.5:
+                # ... or every memo warmed first and the links then edited (an end retargeted, an end dropped, a pair unlinked,
+                # an edge added) before the questions: the answers are about the graph as it is now
+                case["warm"] = True
+                th = []
+                for _ in range(rng.randint(1, 3)):
+                    k = rng.random()
+                    if k < 0.5:
+                        th.append([rng.choice(["SV1", "SV2"]), rng.choice(lids), rng.choice(vids)])
+                    elif k < 0.65:
+                        th.append(["LUF", rng.choice(lids), rng.choice(vids)])
+                    elif k < 0.8:
+                        th.append(["UNL", rng.choice(vids), rng.choice(vids), True])
+                    else:
+                        th.append(["LFT", rng.choice(vids), rng.choice(["KDir", "KUnd"]), rng.choice(vids), False])
+                case["then_ops"] = th
+            yield case
 
     def nontrivial(self, case, obs):
         return obs is not None and any(len(x) >= 2 for x in obs["snap"]["vlinks"])
